@@ -161,7 +161,7 @@ fn gen_limit(seed: u64, which: u64) -> Value {
             common.push(PDef { name, kind: PKind::UInt, col: Col::Seq });
         }
         let st = StoreDef { n: 3, common, variants: vec![], sort: None, unique_keys: false };
-        let case = DirCase { seed: rng.next(), vstores: vec![], stores: vec![st], indexes: vec![IndexDef { name: "index0".into(), store: 0, offset: 0, count: 3 }], defer: 0 };
+        let case = DirCase { seed: rng.next(), vstores: vec![], stores: vec![st], indexes: vec![IndexDef { name: "index0".into(), store: 0, offset: 0, count: 3 }], defer: 0, free: 0 };
         let mut v = case.to_json();
         v["via"] = json!("mem");
         v["expect"] = json!(if target > 65_535 { "unrepresentable" } else { "representable" });
@@ -182,7 +182,7 @@ fn gen_limit(seed: u64, which: u64) -> Value {
             };
             let tail = 10 + 3 + 3 * (n - 1);
             (
-                DirCase { seed: rng.next(), vstores: vec![true], stores: vec![st], indexes: vec![IndexDef { name: "index0".into(), store: 0, offset: 0, count: n as u32 }], defer: 0 },
+                DirCase { seed: rng.next(), vstores: vec![true], stores: vec![st], indexes: vec![IndexDef { name: "index0".into(), store: 0, offset: 0, count: n as u32 }], defer: 0, free: 0 },
                 if tail > 65535 { "unrepresentable" } else { "representable" },
                 format!("indexed value store tail of {tail} bytes"),
             )
@@ -194,7 +194,7 @@ fn gen_limit(seed: u64, which: u64) -> Value {
             let st = StoreDef { n: 3, common, variants: vec![], sort: None, unique_keys: false };
             let tail = 10 + nprops * (1 + 1 + 195);
             (
-                DirCase { seed: rng.next(), vstores: vec![], stores: vec![st], indexes: vec![IndexDef { name: "index0".into(), store: 0, offset: 0, count: 3 }], defer: 0 },
+                DirCase { seed: rng.next(), vstores: vec![], stores: vec![st], indexes: vec![IndexDef { name: "index0".into(), store: 0, offset: 0, count: 3 }], defer: 0, free: 0 },
                 if nprops > 255 || tail > 65535 { "unrepresentable" } else { "representable" },
                 format!("{nprops} key infos, entry store tail of about {tail} bytes"),
             )
@@ -257,7 +257,9 @@ pub fn gen(seed: u64, tier: Tier, k: u64) -> Value {
     let indexes = gen_windows(&mut rng, nstores, &ns);
     // integers handed over as immediate values, deferred words, or a per-entry mix of both
     let defer = *rng.pick(&[0u8, 0, 1, 1, 2]);
-    let case = DirCase { seed: rng.next(), vstores, stores, indexes, defer };
+    // free data of the indexes (and of the directory pack when it is created bare): zero, or arbitrary bytes
+    let free = if rng.chance(1, 2) { rng.next() | 1 } else { 0 };
+    let case = DirCase { seed: rng.next(), vstores, stores, indexes, defer, free };
     let mut v = case.to_json();
     v["via"] = json!(if rng.chance(1, 2) { "file" } else { "mem" });
     v
@@ -315,6 +317,11 @@ pub fn verify_dir(case: &DirCase, inst: &Installed, pack: &Arc<jbk::reader::Dire
             }
         }};
     }
+    // the directory pack's free data (every caller creates the pack bare, with the case's free data)
+    let want_free = pack_free(case.free, "directory");
+    if pack.get_free_data() != &want_free[..] {
+        bad!("free-data", format!("DirectoryPack::get_free_data() = {} but {} was given", util::brief(pack.get_free_data()), util::brief(&want_free)), json!({}));
+    }
     for ix in &case.indexes {
         let index = match pack.get_index_from_name(&ix.name) {
             Ok(Some(i)) => i,
@@ -334,6 +341,10 @@ pub fn verify_dir(case: &DirCase, inst: &Installed, pack: &Arc<jbk::reader::Dire
                 format!("index {} exposes offset {} count {}, declared {} {}", ix.name, index.offset().into_u32(), index.count().into_u32(), ix.offset, ix.count),
                 json!({})
             );
+            continue;
+        }
+        if index.get_store_id().into_u32() as usize != ix.store {
+            bad!("index-store", format!("index {} names entry store {}, declared on store {}", ix.name, index.get_store_id().into_u32(), ix.store), json!({}));
             continue;
         }
         let store = match index.get_store(&entry_storage) {
